@@ -40,9 +40,11 @@ Lemma dot_escape_cons : forall c r,
   else if Ascii.eqb c dquote then String bslash (String dquote (dot_escape r))
   else String c (dot_escape r).
 Proof.
-  intros. unfold dot_escape. cbn [byte_replace dot_pairs lookup_byte].
-  destruct (Ascii.eqb c bslash); [reflexivity|].
-  destruct (Ascii.eqb c dquote); reflexivity.
+  (* computes on the table read from the source (Gen/Names.v) *)
+  intros. unfold dot_escape. cbn [byte_replace dot_pairs dot_id_escapes lookup_byte].
+  unfold bslash, dquote.
+  destruct (Ascii.eqb c "092"%char); [reflexivity|].
+  destruct (Ascii.eqb c "034"%char); reflexivity.
 Qed.
 
 Lemma mermaid_text_nil : mermaid_text "" = "".
@@ -54,9 +56,11 @@ Lemma mermaid_text_cons : forall c r,
   else if Ascii.eqb c dquote then "#quot;" ++ mermaid_text r
   else String c (mermaid_text r).
 Proof.
-  intros. unfold mermaid_text. cbn [byte_replace mermaid_pairs lookup_byte].
-  destruct (Ascii.eqb c hash); [reflexivity|].
-  destruct (Ascii.eqb c dquote); reflexivity.
+  (* computes on the table read from the source (Gen/Names.v) *)
+  intros. unfold mermaid_text. cbn [byte_replace mermaid_pairs mermaid_text_escapes lookup_byte].
+  unfold hash, dquote.
+  destruct (Ascii.eqb c "035"%char); [reflexivity|].
+  destruct (Ascii.eqb c "034"%char); reflexivity.
 Qed.
 
 (** both work byte by byte *)
@@ -627,10 +631,12 @@ Lemma dot_html_cons : forall c r,
   else if Ascii.eqb c rangle then "&gt;" ++ dot_html r
   else String c (dot_html r).
 Proof.
-  intros. unfold dot_html. cbn [byte_replace html_pairs lookup_byte].
-  destruct (Ascii.eqb c amp); [reflexivity|].
-  destruct (Ascii.eqb c langle); [reflexivity|].
-  destruct (Ascii.eqb c rangle); reflexivity.
+  (* computes on the table read from the source (Gen/Names.v) *)
+  intros. unfold dot_html. cbn [byte_replace html_pairs dot_html_escapes lookup_byte].
+  unfold amp, langle, rangle.
+  destruct (Ascii.eqb c "038"%char); [reflexivity|].
+  destruct (Ascii.eqb c "060"%char); [reflexivity|].
+  destruct (Ascii.eqb c "062"%char); reflexivity.
 Qed.
 
 (** the escaped text holds no angle bracket at all *)
